@@ -531,3 +531,67 @@ func VerifC14URIDecode() {
 	}
 	verifCover("C14/urid/end")
 }
+
+// ---- Lua table keys ----
+
+var c14LuaKeywords = []string{"and", "break", "do", "else", "elseif", "end", "false", "for", "function", "goto", "if", "in", "local", "nil", "not", "or", "repeat", "return", "then", "true", "until", "while"}
+
+// VerifC14LuaKeys: with --lua-unquoted a key is written bare only when it is a Lua name ([A-Za-z_][A-Za-z0-9_]*) and
+// not a reserved word; otherwise (and always without the flag) it is written as ["…"] whose literal reads back to
+// the key. A bare reserved word or a bare non-name would make the output something else than a table with that key.
+func VerifC14LuaKeys() {
+	// up to 2 characters over all of ' '..'z'; 3 characters (the length of and, end, for, nil, not) over '_'..'z'
+	kl := verifParam("keylen", 2)
+	alphabet := " z"
+	if kl >= 3 {
+		alphabet = "_z"
+	}
+	k := verifStr("key", kl, alphabet)
+	verifAssume(len(k) >= 1)
+	unquoted := verifChoice("unquoted", 2) == 1
+	prefs := LuaPreferences{DocPrefix: "return ", DocSuffix: ";\n", UnquotedKeys: unquoted}
+	var sb strings.Builder
+	w := bufio.NewWriter(c14Writer{&sb})
+	err := NewLuaEncoder(prefs).Encode(w, vDoc(vMap(vStr(k), vStr("v"))))
+	if ferr := w.Flush(); err == nil {
+		err = ferr
+	}
+	verifAssert(err == nil, "C14/lua-encode-error keys")
+	if err != nil {
+		return
+	}
+	out := sb.String()
+	verifObserve("lua", out)
+	// return {\n\t KEY = "v";\n};\n
+	const head = "return {\n\t"
+	verifAssert(len(out) > len(head) && out[:len(head)] == head, "C14/lua-table-head")
+	if !(len(out) > len(head) && out[:len(head)] == head) {
+		return
+	}
+	rest := out[len(head):]
+	const tail = " = \"v\";\n};\n"
+	verifAssert(len(rest) > len(tail) && rest[len(rest)-len(tail):] == tail, "C14/lua-table-tail")
+	if !(len(rest) > len(tail) && rest[len(rest)-len(tail):] == tail) {
+		return
+	}
+	keyText := rest[:len(rest)-len(tail)]
+	if verifConcreteBool(keyText[0] == '[') {
+		verifCover("C14/luakeys/quoted")
+		verifAssert(len(keyText) >= 2 && verifConcreteBool(keyText[len(keyText)-1] == ']'), "C14/lua-quoted-key-not-closed")
+		val, ok := c14LuaRead(keyText[1 : len(keyText)-1])
+		verifAssert(ok && verifEqStr(val, k), "C14/lua-quoted-key-reads-back-differently")
+	} else {
+		verifCover("C14/luakeys/bare")
+		verifAssert(unquoted, "C14/lua-bare-key-without-the-flag")
+		verifAssert(verifEqStr(keyText, k), "C14/lua-bare-key-is-not-the-key")
+		for i := 0; i < len(k); i++ {
+			c := k[i]
+			name := (c >= 'a' && c <= 'z') || (c >= 'A' && c <= 'Z') || c == '_' || (i > 0 && c >= '0' && c <= '9')
+			verifAssert(name, "C14/lua-bare-key-is-not-a-name")
+		}
+		for _, kw := range c14LuaKeywords {
+			verifAssert(!verifEqStr(k, kw), "C14/lua-bare-key-is-a-reserved-word")
+		}
+	}
+	verifCover("C14/luakeys/end")
+}
